@@ -47,12 +47,12 @@ ELL = 'photutils/aperture/ellipse.py'
 RECT = 'photutils/aperture/rectangle.py'
 STATS = 'photutils/aperture/stats.py'
 FILES = [BBOX, CORE, RND, GRID, IMG, ISO, BKG, DCORE, PEAK, SEG, SUTIL, SDET, PPHOT, CIRC, ELL, RECT, STATS]
-DEPENDS = {BBOX: ['C01_GenEq.v', 'C02_GenEq.v', 'C16_GenEq.v'], CORE: ['C01_GenEq.v', 'C01_GenEq2.v'], RND: ['C17_GenEq.v'],
+DEPENDS = {BBOX: ['C01_GenEq.v', 'C02_GenEq.v', 'C16_GenEq.v'], CORE: ['C01_GenEq.v', 'C01_Shape_GenEq.v'], RND: ['C17_GenEq.v'],
            GRID: ['C13_GenEq.v'], IMG: ['C13_GenEq.v'], ISO: ['C20_GenEq.v'], BKG: ['C11_GenEq.v'],
            DCORE: ['C14_GenEq.v'], PEAK: ['C14_GenEq.v'], SEG: ['C05_GenEq.v'], SUTIL: ['C04_GenEq.v'],
-           SDET: ['C04_GenEq.v'], PPHOT: ['C12_GenEq.v'], CIRC: ['C01_GenEq2.v'], ELL: ['C01_GenEq2.v'],
-           RECT: ['C01_GenEq2.v'], STATS: ['C16_GenEq.v']}
-ALL_EQ = ['C01_GenEq.v', 'C01_GenEq2.v', 'C02_GenEq.v', 'C04_GenEq.v', 'C05_GenEq.v', 'C11_GenEq.v', 'C12_GenEq.v',
+           SDET: ['C04_GenEq.v'], PPHOT: ['C12_GenEq.v'], CIRC: ['C01_Shape_GenEq.v'], ELL: ['C01_Shape_GenEq.v'],
+           RECT: ['C01_Shape_GenEq.v'], STATS: ['C16_GenEq.v']}
+ALL_EQ = ['C01_GenEq.v', 'C01_Shape_GenEq.v', 'C02_GenEq.v', 'C04_GenEq.v', 'C05_GenEq.v', 'C11_GenEq.v', 'C12_GenEq.v',
           'C13_GenEq.v', 'C14_GenEq.v', 'C16_GenEq.v', 'C17_GenEq.v', 'C20_GenEq.v']
 
 # (name, kind, file, old, new, expectation)
@@ -170,8 +170,8 @@ mut('detect: `count < npixels - 1`', SDET, 'if np.count_nonzero(segment_mask) < 
 mut('detect_sources: `npixels <= 0` -> `< 0`', SDET, 'if (npixels <= 0) or (int(npixels) != npixels):', 'if (npixels < 0) or (int(npixels) != npixels):')
 mut('detect_sources: `int(npixels) != npixels` -> `==`', SDET, 'if (npixels <= 0) or (int(npixels) != npixels):', 'if (npixels <= 0) or (int(npixels) == npixels):')
 # ---- C01 part 2 ----
-mut('centered_edges: `- 0.5` -> `+ 0.5` in xmin', CORE, 'xmin = bbox.ixmin - 0.5 - position[0]', 'xmin = bbox.ixmin + 0.5 - position[0]', fail=['C01_GenEq2.v'])
-mut('centered_edges: ymax uses position[0]', CORE, 'ymax = bbox.iymax - 0.5 - position[1]', 'ymax = bbox.iymax - 0.5 - position[0]', fail=['C01_GenEq2.v'])
+mut('centered_edges: `- 0.5` -> `+ 0.5` in xmin', CORE, 'xmin = bbox.ixmin - 0.5 - position[0]', 'xmin = bbox.ixmin + 0.5 - position[0]', fail=['C01_Shape_GenEq.v'])
+mut('centered_edges: ymax uses position[0]', CORE, 'ymax = bbox.iymax - 0.5 - position[1]', 'ymax = bbox.iymax - 0.5 - position[0]', fail=['C01_Shape_GenEq.v'])
 mut('circle extents: (r, 2r)', CIRC, '        return self.r, self.r\n', '        return self.r, 2 * self.r\n')
 mut('circle extents: (r + 1, r)', CIRC, '        return self.r, self.r\n', '        return self.r + 1, self.r\n')
 mut('circular annulus extents: r_out / 2', CIRC, 'return self.r_out, self.r_out', 'return self.r_out, self.r_out / 2')
